@@ -2814,6 +2814,13 @@ def ps_run_case(case):
             impl = 'err'
             if ps_shape_str(ospec) == ps_shape_str(spec):
                 problems.append(('impl-raised', exc_desc(res[1])))
+            elif len(ospec[1]) != len(spec[1]):
+                # the repair of C17-F14: ValueError BEFORE anything is written
+                if not isinstance(res[1], ValueError):
+                    problems.append(('out-part-count-wrong-exception', exc_desc(res[1])))
+                if any(not ps_same_floats(np.asarray(m), before[i]) for i, m in enumerate(objs)):
+                    problems.append(('out-part-count-rejected-after-writing',
+                                     'a buffer changed although the call was rejected'))
     if op != 'into' and not ps_same_floats(ps_flat(x, spec), flat0):
         problems.append(('operand-modified', 'x changed'))
     return dict(line=line, impl=impl, problems=problems, hits=hits)
@@ -2833,7 +2840,7 @@ PSVALUE_STRATA = (
      'psvalue/map/weighted', 'psvalue/bin/scalar-float', 'psvalue/bin/scalar-int',
      'psvalue/bin/same', 'psvalue/bin/sub', 'psvalue/bin/subsub', 'psvalue/bin/nested',
      'psvalue/into/disjoint/ok', 'psvalue/into/inplace/ok', 'psvalue/into/alias-swap/ok',
-     'psvalue/into/more-parts/ok', 'psvalue/into/fewer-parts/ok', 'psvalue/into/leaf-size/err',
+     'psvalue/into/more-parts/err', 'psvalue/into/fewer-parts/err', 'psvalue/into/leaf-size/err',
      'psvalue/into/structure/err', 'psvalue/into/nested', 'psvalue/into/weighted',
      'psvalue/array/asarray-dtype-float32', 'psvalue/array/asarray-dtype-float64',
      'psvalue/array/tensor-plus-power'])
